@@ -134,6 +134,11 @@ func VerifLoopReady() bool {
 	return EngineGlobal != nil && EngineGlobal.eng != nil && EngineGlobal.eng.el != nil
 }
 
+// VerifClusterChanLen returns the number of topology probe replies waiting for the refresher goroutine,
+// and VerifServerChanged whether a parsed topology change is waiting for the next tick.
+func VerifClusterChanLen() int { return len(EngineGlobal.clusterChan) }
+func VerifServerChanged() bool { return EngineGlobal.ClusterNodes.serverChanged }
+
 // VerifPollFds returns the epoll fd and the wake-up eventfd of the loop's poller.
 func VerifPollFds() (int, int) { return EngineGlobal.eng.el.poller.VerifFds() }
 
